@@ -9,9 +9,11 @@ import (
 
 	sdkmath "cosmossdk.io/math"
 	sdk "github.com/cosmos/cosmos-sdk/types"
+	authtypes "github.com/cosmos/cosmos-sdk/x/auth/types"
 
 	"github.com/provenance-io/provenance/internal/pioconfig"
 	"github.com/provenance-io/provenance/x/exchange"
+	markertypes "github.com/provenance-io/provenance/x/marker/types"
 	msgfeestypes "github.com/provenance-io/provenance/x/msgfees/types"
 )
 
@@ -318,6 +320,90 @@ func TestC19(t *testing.T) {
 			}
 			if err != nil {
 				w.Count("commitment_fee_failed")
+			}
+		}
+	}
+	// --- commitment settlement charge with NAVs read from the marker module's store ---
+	// (the request provides no NAV for the denom, so lookupNav falls back to Keeper.GetNav, which
+	// rebuilds the assets amount from the stored uint64 volume)
+	{
+		marketID, err := app.ExchangeKeeper.CreateMarket(baseCtx, exchange.Market{
+			MarketDetails:            exchange.MarketDetails{Name: "c19stored"},
+			FeeCreateCommitmentFlat:  []sdk.Coin{sdk.NewInt64Coin(feeDenom, 1)},
+			CommitmentSettlementBips: 50,
+			IntermediaryDenom:        "interm",
+		})
+		if err != nil {
+			t.Fatalf("create market: %v", err)
+		}
+		mgr := addrN(31)
+		ensureAccount(app, baseCtx, mgr)
+		vols := []uint64{1, 2, 3, 7, 1000, 1 << 31, 1<<63 - 1, 1 << 63, 1<<63 + 1, 1<<64 - 1, 0}
+		ns := scale(120, 3000)
+		for i := 0; i < ns; i++ {
+			ctx, _ := baseCtx.CacheContext()
+			denom := fmt.Sprintf("navcoin%d", i%7)
+			maddr := markertypes.MustGetMarkerAddress(denom)
+			ma := markertypes.NewMarkerAccount(authtypes.NewBaseAccountWithAddress(maddr), sdk.NewInt64Coin(denom, 1000), mgr,
+				[]markertypes.AccessGrant{*markertypes.NewAccessGrant(mgr, markertypes.AccessList{markertypes.Access_Admin, markertypes.Access_Mint})},
+				markertypes.StatusProposed, markertypes.MarkerType_Coin, true, true, false, nil)
+			if err := app.MarkerKeeper.AddFinalizeAndActivateMarker(ctx, ma); err != nil {
+				t.Fatalf("marker: %v", err)
+			}
+			vol := vols[r.Intn(len(vols))]
+			np := randAmount(r, pool)
+			if np.BitLen() > 100 {
+				np.Rsh(np, uint(np.BitLen()-100))
+			}
+			if vol == 0 {
+				np.SetInt64(0) // the marker module only accepts volume 0 together with price 0
+			} else if np.Sign() == 0 {
+				np.SetInt64(1)
+			}
+			m, err := app.MarkerKeeper.GetMarker(ctx, maddr)
+			if err != nil || m == nil {
+				t.Fatalf("get marker: %v", err)
+			}
+			if err := app.MarkerKeeper.SetNetAssetValue(ctx, m, markertypes.NewNetAssetValue(sdk.NewCoin("interm", sdkmath.NewIntFromBigInt(np)), vol), "c19"); err != nil {
+				t.Fatalf("set nav (%s, %d): %v", np, vol, err)
+			}
+			bips := uint32(1 + r.Intn(10000))
+			app.ExchangeKeeper.UpdateFees(ctx, &exchange.MsgGovManageFeesRequest{MarketId: marketID, SetFeeCommitmentSettlementBips: bips})
+			amt := randAmount(r, pool)
+			if amt.BitLen() > 100 {
+				amt.Rsh(amt, uint(amt.BitLen()-100))
+			}
+			if amt.Sign() == 0 {
+				amt.SetInt64(1)
+			}
+			tfp, tfa := big.NewInt(int64(1+r.Intn(50))), big.NewInt(int64(1+r.Intn(50)))
+			inputs := sdk.NewCoins(sdk.NewCoin(denom, sdkmath.NewIntFromBigInt(amt)))
+			navs := []exchange.NetAssetPrice{{Assets: sdk.NewCoin("interm", sdkmath.NewIntFromBigInt(tfa)), Price: sdk.NewCoin(feeDenom, sdkmath.NewIntFromBigInt(tfp))}}
+			aa := []exchange.AccountAmount{{Account: addrN(1).String(), Amount: inputs}}
+			req := &exchange.MsgMarketCommitmentSettleRequest{Admin: addrN(2).String(), MarketId: marketID, Inputs: aa, Outputs: aa, Navs: navs}
+			var resp *exchange.QueryCommitmentSettlementFeeCalcResponse
+			err = try(func() error {
+				var e error
+				resp, e = app.ExchangeKeeper.CalculateCommitmentSettlementFee(ctx, req)
+				return e
+			})
+			v := ""
+			if err == nil {
+				v = "(" + zInt(resp.ConvertedTotal.AmountOf("interm")) + ", " + zInt(sdk.Coins(resp.ExchangeFees).AmountOf(feeDenom)) + ")"
+			}
+			volZ := new(big.Int).SetUint64(vol)
+			term := "CCommit {| ci_fee := 0; ci_conv := 0; ci_others := [(" + zBig(amt) + ", " + zBig(np) + ", " + zBig(volZ) + ")]" +
+				"; ci_tfp := " + zBig(tfp) + "; ci_tfa := " + zBig(tfa) + "; ci_bips := " + zI64(int64(bips)) + " |} " + coqOpt(err == nil, v)
+			w.Add(term, desc{"fn": "CalculateCommitmentSettlementFee (NAV read from the marker store)", "amount": amt.String(), "stored_nav_price": np.String(),
+				"stored_nav_volume": volZ.String(), "to_fee_nav_price": tfp.String(), "to_fee_nav_assets": tfa.String(), "bips": bips, "ok": err == nil, "error": fmt.Sprint(err)})
+			w.Count("commitment_fee_stored_nav")
+			if vol >= 1<<63 {
+				w.Count("commitment_fee_stored_nav_volume_ge_2^63")
+			}
+			if err != nil {
+				w.Count("commitment_fee_stored_nav_failed")
+			} else {
+				w.Nontrivial("cs/" + term)
 			}
 		}
 	}
